@@ -128,13 +128,27 @@ def lean_phase(ctx, mod):
                 p = os.path.join(C.LEAN, '.lake', 'build', 'lib', 'lean', *m.split('.')) + '.' + ext
                 if os.path.exists(p):
                     os.remove(p)
-    rc, out = C.lake_build(targets + ['andes_driver'])
+    rc, out = C.lake_build(targets)
     build_ok = rc == 0
     if not build_ok:
         for e in C.failing_decls(out):
             ctx.broken.append('build: ' + e)
         if not ctx.broken:
             ctx.broken.append('build failed: ' + out[-500:])
+    # the model driver is one executable for all properties; it links the (regenerated) model of C01 too.
+    # If it cannot be rebuilt because ANOTHER property's regenerated module is broken, keep using the
+    # existing executable for this property (its own modules were just built above).
+    rc_d, out_d = C.lake_build(['andes_driver'])
+    if rc_d != 0:
+        own = any(m.split('.')[-1] in out_d for m in targets)
+        if own or not os.path.exists(C.driver_path()) or getattr(mod, 'DRIVER_USES_GEN', False):
+            for e in C.failing_decls(out_d):
+                ctx.broken.append('driver build: ' + e)
+            if not os.path.exists(C.driver_path()):
+                raise RuntimeError('the model driver cannot be built:\n' + out_d[-1500:])
+        else:
+            ctx.notes.append('model driver not rebuilt (a regenerated module of another property does not compile); '
+                             'the existing executable is used')
     files = C.lean_files_of(targets)
     hits = C.forbidden_hits(files)
     for h in hits:
@@ -192,7 +206,11 @@ def main(argv):
         return 2
     ctx = C.Ctx(pid, tier, seed)
     try:
-        info = lean_phase(ctx, mod)
+        if os.environ.get('VERIF_SKIP_LEAN') == '1':
+            # development aid only (never used by a registered command): harness part alone
+            info = {'checker_cmd': 'skipped (VERIF_SKIP_LEAN=1)', 'obligations': 0, 'discharged': 0}
+        else:
+            info = lean_phase(ctx, mod)
         ctx.cov['pycode'] = C.ensure_pycode()
         mod.run(ctx)
         if (ctx.broken or ctx.disagreements) and not ctx.oracle_failures and hasattr(mod, 'search'):
